@@ -123,6 +123,10 @@ func matrixCases() []caseSpec {
 		// the counterparty restarts in its next revision at a low height; headers of the previous revision keep arriving
 		caseSpec{id: "revision/tendermint-restarts-low-in-the-next-revision", slots: 1, steps: []step{q(tTM, ""), {kind: "updates", slot: 0, n: 3}, {kind: "upgrade", slot: 0, typ: tTM, variant: "next-revision"}, {kind: "updates", slot: 0, n: 2}}},
 		caseSpec{id: "revision/tendermint-restarts-low-right-after-creation", slots: 1, steps: []step{q(tTM, ""), {kind: "upgrade", slot: 0, typ: tTM, variant: "next-revision"}, {kind: "updates", slot: 0, n: 1}, {kind: "upgrade", slot: 0, typ: tTM, variant: "later"}}},
+		// clients anchored at the first block of their chain (height 0-0), through every lifecycle operation
+		caseSpec{id: "anchor/eth-at-block-0", slots: 1, steps: []step{{kind: "create", slot: 0, typ: tETH, variant: "valid", hint: "zero"}, {kind: "updates", slot: 0, n: 2}, {kind: "upgrade", slot: 0, typ: tETH, variant: "valid", hint: "zero"}, {kind: "updates", slot: 0, n: 1}}},
+		caseSpec{id: "anchor/bsc-at-block-0", slots: 1, steps: []step{{kind: "create", slot: 0, typ: tBSC, variant: "valid", hint: "zero"}, {kind: "updates", slot: 0, n: 2}, {kind: "upgrade", slot: 0, typ: tBSC, variant: "valid", hint: "zero"}}},
+		caseSpec{id: "anchor/toggle-to-block-0", slots: 1, steps: []step{q(tTSS, ""), {kind: "toggle", slot: 0, typ: tETH, variant: "valid", hint: "zero"}, {kind: "toggle", slot: 0, typ: tBSC, variant: "valid", hint: "zero"}, {kind: "updates", slot: 0, n: 1}}},
 		caseSpec{id: "leftover/eth-heights-below-bsc", slots: 1, steps: []step{q(tETH, "low"), {kind: "toggle", slot: 0, typ: tBSC, variant: "valid", hint: "high"}}},
 		caseSpec{id: "leftover/bsc-heights-below-eth", slots: 1, steps: []step{q(tBSC, "low"), {kind: "toggle", slot: 0, typ: tETH, variant: "valid", hint: "high"}, {kind: "upgrade", slot: 0, typ: tETH, variant: "valid", hint: "high"}}},
 		caseSpec{id: "leftover/tss-then-bsc", slots: 1, steps: []step{q(tETH, ""), {kind: "toggle", slot: 0, typ: tTSS, variant: "valid"}, {kind: "toggle", slot: 0, typ: tBSC, variant: "valid"}}},
